@@ -1001,3 +1001,107 @@ func init() {
 	}
 	externals["(*crypto/x509.CertPool).AppendCertsFromPEM"] = func(fr *frame, args []value) value { return true }
 }
+
+// reflect.DeepEqual over the engine's own value representation (the real one walks
+// reflect.Value internals through unsafe pointers). Type-directed; scalars compare with
+// eqv and may therefore yield a symbolic boolean.
+func (i *interpreter) deepEq(t types.Type, x, y value, depth int) value {
+	if depth > 64 {
+		i.abort("unsupported", "reflect.DeepEqual: recursion deeper than 64 (cyclic value?)")
+	}
+	switch tt := t.Underlying().(type) {
+	case *types.Pointer:
+		xp, _ := x.(*value)
+		yp, _ := y.(*value)
+		if xp == yp {
+			return true
+		}
+		if xp == nil || yp == nil {
+			return false
+		}
+		return i.deepEq(tt.Elem(), load(tt.Elem(), xp), load(tt.Elem(), yp), depth+1)
+	case *types.Slice:
+		xs, _ := x.([]value)
+		ys, _ := y.([]value)
+		if (xs == nil) != (ys == nil) || len(xs) != len(ys) {
+			return false
+		}
+		var acc value = true
+		for k := range xs {
+			acc = i.andv(acc, i.deepEq(tt.Elem(), xs[k], ys[k], depth+1))
+			if b, ok := acc.(bool); ok && !b {
+				return false
+			}
+		}
+		return acc
+	case *types.Array:
+		xs, ys := x.(array), y.(array)
+		var acc value = true
+		for k := range xs {
+			acc = i.andv(acc, i.deepEq(tt.Elem(), xs[k], ys[k], depth+1))
+			if b, ok := acc.(bool); ok && !b {
+				return false
+			}
+		}
+		return acc
+	case *types.Struct:
+		xs, ys := x.(structure), y.(structure)
+		var acc value = true
+		for k := range xs {
+			acc = i.andv(acc, i.deepEq(tt.Field(k).Type(), xs[k], ys[k], depth+1))
+			if b, ok := acc.(bool); ok && !b {
+				return false
+			}
+		}
+		return acc
+	case *types.Map:
+		xm, _ := x.(*omap)
+		ym, _ := y.(*omap)
+		if (xm == nil) != (ym == nil) {
+			return false
+		}
+		if xm == nil || xm == ym {
+			return true
+		}
+		if len(xm.keys) != len(ym.keys) {
+			return false
+		}
+		var acc value = true
+		for k, key := range xm.keys {
+			p := i.mapFind(ym, key)
+			if p < 0 {
+				return false
+			}
+			acc = i.andv(acc, i.deepEq(tt.Elem(), xm.vals[k], ym.vals[p], depth+1))
+			if b, ok := acc.(bool); ok && !b {
+				return false
+			}
+		}
+		return acc
+	case *types.Interface:
+		xi, yi := x.(iface), y.(iface)
+		if !sameType(xi.t, yi.t) {
+			return false
+		}
+		if xi.t == nil {
+			return true
+		}
+		return i.deepEq(xi.t, xi.v, yi.v, depth+1)
+	case *types.Signature:
+		return isNilRef(x) && isNilRef(y)
+	}
+	return i.eqv(t, x, y)
+}
+
+func init() {
+	externals["reflect.DeepEqual"] = func(fr *frame, args []value) value {
+		xi, yi := args[0].(iface), args[1].(iface)
+		if xi.t == nil || yi.t == nil {
+			return xi.t == nil && yi.t == nil
+		}
+		if !sameType(xi.t, yi.t) {
+			return false
+		}
+		return fr.i.deepEq(xi.t, xi.v, yi.v, 0)
+	}
+}
